@@ -424,17 +424,36 @@ theorem deviate_reported_conditions (opts : Opts) (ms : Stmt) (spec node : Entry
 /-- The two conditions that are detected when the deviating module is converted (`toEntry`), before
 the deviation stage: an unknown deviate argument and a replacement type that does not resolve.
 FULL STATEMENT, NOT PROVED: `processAll` returns errors whenever a loaded module contains such a
-statement.  What is missing is the step from "the deviate / deviation entry carries the error"
-(the `"deviate"` and `"type"` cases of `Model.toEntry`, which add `deviate-unknown-kind` /
-`deviate-bad-type` and import the errors into the deviation entry and from there into the module
-entry) through the conversion cache to "the forest `processAll` inspects contains that module
-entry": an invariant of the whole `toEntry` recursion, which is the subject of C04.  The runner
-covers both conditions (`unknown-kind/*`, `bad-type/*` combinations, and at random). -/
+statement.  Proved (`deviate_reported_conversion_partial`): the entry of the `deviation` statement
+carries a recorded error whenever one of its deviate statements has an unknown argument or a deviate
+entry with an error, for every fuel, scope and conversion state.  Missing: (i) that the `"type"` case
+of `Model.toEntry` leaves `deviate-bad-type` on the deviate entry through the remaining field steps
+(plain unfolding of the seven nested steps), and (ii) the way from the deviation entry into the module
+entry (the `"deviation"` step imports it; ten more field steps follow) and through the conversion
+cache to "the forest `processAll` inspects contains that module entry" — an invariant of the whole
+`toEntry` recursion, which is the subject of C04.  The runner covers both conditions
+(`unknown-kind/*`, `bad-type/*` combinations, and at random). -/
 def ConversionErrorsReported (reg : Registry) (opts : Opts) (plug : Plug) : Prop :=
   (∃ m ∈ reg.distinctModules ++ reg.distinctSubs, ∃ dv ∈ m.stmt.all "deviation", ∃ ds ∈ dv.all "deviate",
       deviateKinds.contains ds.arg = false ∨
       (∃ ty, ds.one? "type" = some ty ∧ (plug.tres.resolve reg m [ds, dv, m.stmt] ty).2 ≠ [])) →
     (processAll reg opts plug).errors ≠ []
+
+/-- The conversion records the error where the module's error sweep finds it: on the entry of the
+deviation statement (which `toEntry` of the module imports into the module entry). -/
+theorem deviate_reported_conversion_partial (env : Env) (fuel : Nat) (root : Mod) (scope : List Stmt) (n : Stmt)
+    (visiting : List NodeId) (st : TState) (hkw : n.kw = "deviation")
+    (h : ∃ ds ∈ n.all "deviate", deviateKinds.contains ds.arg = false ∨
+      ∀ st', (toEntry env (fuel - 1) root (n :: scope) ds visiting st').1.d.errors ≠ []) :
+    (toEntry env fuel root scope n visiting st).1.d.errors ≠ [] :=
+  toEntry_deviation_errs env fuel root scope n visiting st hkw h
+
+/-- Non-vacuity: `deviation /b:t { deviate shrink; }`. -/
+example :
+    let n : Stmt := .mk "deviation" true "/b:t" "d.yang" 3 3 [.mk "deviate" true "shrink" "d.yang" 4 5 []]
+    n.kw = "deviation" ∧ ∃ ds ∈ n.all "deviate", deviateKinds.contains ds.arg = false := by
+  refine ⟨rfl, .mk "deviate" true "shrink" "d.yang" 4 5 [], ?_, by decide⟩
+  simp [Stmt.all, Stmt.subs, Stmt.kw]
 
 /-- What is proved of it: an unknown kind never reaches the deviation stage as something to apply
 (it is filtered out, so the report has to come — and in the model does come — from the conversion),
